@@ -88,13 +88,28 @@ def run(ctx):
     if not dts:
         raise AnalysisError('anchor vanished: data record dtype in bpch1.__init__')
     rfmts = set(const_str(n.args[0].left).replace(' ', '') for n in dts)
-    wrec = [st for st in iter_stmts(wfn.body) if isinstance(st, ast.Expr) and 'var_types.append' in norm(st)]
-    wtxt = norm(wrec[0]) if wrec else ''
-    dtxt = norm([st for st in iter_stmts(wfn.body) if isinstance(st, ast.Assign) and norm(st.targets[0]) == 'data_type'][0].value)
+    # the writer's per-variable block type, by structure: dtype(dict(names=[.., 'data', ..], formats=[header type, '>i', <data>, '>i'])) wherever it
+    # is built (loop body, helper, comprehension); a named <data> format is resolved through its definition
+    wcalls = [c for c in ast.walk(wfn) if isinstance(c, ast.Call) and (dotted(c.func) or '').split('.')[-1] == 'dict' and kw(c, 'names') is not None and kw(c, 'formats') is not None
+              and isinstance(kw(c, 'names'), (ast.List, ast.Tuple)) and 'data' in [const_str(e) for e in kw(c, 'names').elts]]
+    wtxt = dtxt = ''
+    wrec = []
+    if wcalls:
+        wrec = [wcalls[0]]
+        fm = kw(wcalls[0], 'formats')
+        wtxt = norm(wcalls[0])
+        if isinstance(fm, (ast.List, ast.Tuple)) and len(fm.elts) == 4:
+            d_ = fm.elts[2]
+            if isinstance(d_, ast.Name):
+                defs = [st for st in ast.walk(wfn) if isinstance(st, ast.Assign) and any(isinstance(t, ast.Name) and t.id == d_.id for t in st.targets)]
+                dtxt = norm(defs[-1].value) if defs else ''
+            else:
+                dtxt = norm(d_)
+            wtxt = "formats=[%s, %s, data_type, %s]" % (norm(fm.elts[0]), norm(fm.elts[1]), norm(fm.elts[3]))
     if rfmts == set(['>i4,%s>f4,>i4']) and "formats=[_datablock_header_type, '>i', data_type, '>i']" in wtxt and dtxt.startswith("'%s>f' %"):
         ctx.ok('R-BPCHTABLE', 'data record', where, "reader '>i4, <shape>>f4, >i4' ; writer header + ['>i', <shape>>f, '>i']")
     else:
-        ctx.violation(Finding('R-BPCHTABLE', B, 'ncf2bpch', wrec[0] if wrec else wfn, 'data record layouts differ: reader %s, writer %s / %s' % (sorted(rfmts), wtxt[-80:], dtxt)), oid='data record')
+        ctx.violation(Finding('R-BPCHTABLE', B, 'ncf2bpch', api.stmt_of(wrec[0]) if wrec else wfn, 'data record layouts differ: reader %s, writer %s / %s' % (sorted(rfmts), wtxt[-80:], dtxt)), oid='data record')
     # ---- R-FIELDROLE
     ro, wo = offsets(dh_r), offsets(dh_w)
     for fk, wname in sorted(ROLE.items(), key=lambda kv: int(kv[0][1:])):
